@@ -264,7 +264,7 @@ static int m_open(void *s)
 	if (oq_head < oq_tail)
 		rc = openq[oq_head++];
 	dump_tables("T");
-	tracef("O %d", rc);
+	tracef("O %d %lld", rc, fake_now);
 	return rc;
 }
 
@@ -710,6 +710,35 @@ int main(void)
 			tape_head = tape_tail;
 			flush_trace();
 			puts("end");
+		} else if (!strcmp(w[0], "val") && n == 5) {
+			struct lrtr_ip_addr a;
+			long long len, asn;
+			size_t hn;
+			unsigned char *hb = parse_hex(w[2], &hn);
+			enum pfxv_state st;
+
+			memset(&a, 0, sizeof(a));
+			if (!hb || !parse_ll(w[3], &len) || !parse_ll(w[4], &asn) || len < 0 || len > 255 || asn < 0 ||
+			    asn > 0xffffffffLL || (strcmp(w[1], "4") && strcmp(w[1], "6")) ||
+			    hn != (w[1][0] == '4' ? 4u : 16u)) {
+				free(hb);
+				puts("bad-op");
+				continue;
+			}
+			if (w[1][0] == '4') {
+				a.ver = LRTR_IPV4;
+				a.u.addr4.addr = (uint32_t)hb[0] << 24 | hb[1] << 16 | hb[2] << 8 | hb[3];
+			} else {
+				a.ver = LRTR_IPV6;
+				for (int i = 0; i < 4; i++)
+					a.u.addr6.addr[i] = (uint32_t)hb[4 * i] << 24 | hb[4 * i + 1] << 16 |
+							    hb[4 * i + 2] << 8 | hb[4 * i + 3];
+			}
+			free(hb);
+			if (pfx_table_validate(&pfxt, (uint32_t)asn, &a, (uint8_t)len, &st) != PFX_SUCCESS)
+				puts("error");
+			else
+				puts(st == BGP_PFXV_STATE_VALID ? "VALID" : st == BGP_PFXV_STATE_NOT_FOUND ? "NOTFOUND" : "INVALID");
 		} else if (!strcmp(w[0], "show") && n == 1) {
 			show_sock();
 			flush_trace();
